@@ -9,16 +9,22 @@ from . import lexcommon as LC, topo_common as TC
 
 _CTX = None
 
-def _names(real, K):
+def _names(real, K, kinds=None):
+    if real == 'mixed': return [('fb%d' if kinds[i] == 'fb' else 'st%d') % i for i in range(K)]
     return {'fb': ['fb%d' % i for i in range(K)], 'struct': ['st%d' % i for i in range(K)], 'alias': ['al%d' % i for i in range(K)]}[real]
 
 def _k1_job(job):
     real, K, fixed = job            # fixed: dict (i,j)->bool for the edges decided by the job partition
     ctx = _CTX; part = Part()
     P = ctx.program()
-    names = _names(real, K)
+    kinds = fixed.get('kinds') if real == 'mixed' else None
+    names = _names(real, K, kinds)
     forms = fixed.get('forms') if real == 'alias' else None      # per alias: True = declared with a default value (`al : base := v;`, an enumeration alias), False = plain (`al : base;`)
-    texts = {'fb': TC.source_fb, 'struct': TC.source_struct, 'alias': TC.source_alias}[real](K)
+    if real == 'mixed':
+        # node i is a function block (its references are instance variables) or a structure (its references are elements), per `kinds`
+        fbs = TC.source_fb(K); sts = TC.source_struct(K)
+        texts = [fbs[i] if kinds[i] == 'fb' else sts[i] for i in range(K)]
+    else: texts = {'fb': TC.source_fb, 'struct': TC.source_struct, 'alias': TC.source_alias}[real](K)
     if forms: texts = ['TYPE\n  al%d : B%d%s;\nEND_TYPE\n' % (i, i, ' := dflt' if forms[i] else '') for i in range(K)]
     section = fixed.get('section', 'VAR') if real == 'fb' else 'VAR'       # the variable section holding the instances (VAR_INPUT and VAR_OUTPUT instances are contained as well)
     if real == 'fb' and section != 'VAR': texts = TC.source_fb(K, section=section)
@@ -33,7 +39,7 @@ def _k1_job(job):
         lib = deep_clone(lib0)
         ids = {n: models.str_term(M, Str(n)) for n in names + ['int']}
         mapping = {}; sym.clear()
-        if real in ('fb', 'struct'):
+        if real in ('fb', 'struct', 'mixed'):
             cased = fixed.get('case')
             upper = {n: models.str_term(M, Str(n.upper())) for n in names}
             for i in range(K):
@@ -70,7 +76,7 @@ def _k1_job(job):
         part.nontrivial += 1
         # reference graph as a formula over the symbolic inputs: edge(i,j), then cyclic = some node reaches itself
         def edge(i, j):
-            if real in ('fb', 'struct'):
+            if real in ('fb', 'struct', 'mixed'):
                 e = sym[(i, j)]; return z3.BoolVal(e) if isinstance(e, bool) else e
             b = sym[i]; return z3.BoolVal(b == j) if isinstance(b, int) else (b == j)
         reach = [[edge(i, j) for j in range(K)] for i in range(K)]
@@ -87,7 +93,7 @@ def _k1_job(job):
         s.add(z3.BoolVal(True) if pr.panic else (ref_cyc != z3.BoolVal(got_rec)))
         t = time.time(); r = s.check(); part.solver_s += time.time() - t; part.queries += 1
         def edges_of(m):
-            if real in ('fb', 'struct'): return sorted(k_ for k_, e in sym.items() if len(k_) == 2 and (e if isinstance(e, bool) else z3.is_true(m.eval(e, True))))
+            if real in ('fb', 'struct', 'mixed'): return sorted(k_ for k_, e in sym.items() if len(k_) == 2 and (e if isinstance(e, bool) else z3.is_true(m.eval(e, True))))
             out = []
             for i, b in sym.items():
                 v = b if isinstance(b, int) else m.eval(b, True).as_long()
@@ -96,7 +102,7 @@ def _k1_job(job):
         if r == z3.sat:
             m = s.model(); edges = edges_of(m); cyc = TC.reach_cyclic(K, edges)
             up = sorted((k_[1], k_[2]) for k_, e in sym.items() if isinstance(k_, tuple) and len(k_) == 3 and z3.is_true(m.eval(e, True)) and (k_[1], k_[2]) in edges)
-            role_g = '%s/K%d/%s%s' % (real + ('-with-defaults-' + ''.join('1' if f else '0' for f in forms) if forms else '') + (('-' + decl) if decl else '') + (('-' + section.lower()) if section != 'VAR' else ''), K, '_'.join('%d%d' % e for e in edges) or 'empty', ('/respelled-' + '_'.join('%d%d' % e for e in up)) if up else ''); src = _source(real, K, edges, up, forms, decl, section)
+            role_g = '%s/K%d/%s%s' % (real + (('-' + ''.join(k[0] for k in kinds)) if kinds else '') + ('-with-defaults-' + ''.join('1' if f else '0' for f in forms) if forms else '') + (('-' + decl) if decl else '') + (('-' + section.lower()) if section != 'VAR' else ''), K, '_'.join('%d%d' % e for e in edges) or 'empty', ('/respelled-' + '_'.join('%d%d' % e for e in up)) if up else ''); src = _source(real, K, edges, up, forms, decl, section, kinds)
             if pr.panic:
                 part.add('C07/K1/panic/' + role_g, 'toposort panics on %s graph %s: %s' % (real, edges, pr.panic.msg), {'realisation': real, 'edges': edges, 'source': src}, ('graph', (src, cyc)))
             else:
@@ -106,7 +112,7 @@ def _k1_job(job):
         else:
             s2 = z3.Solver(); s2.add(*pr.pc)
             if s2.check() == z3.sat and len(part.validate) < 1:
-                edges = edges_of(s2.model()); part.validate.append(('graph', (_source(real, K, edges, (), forms, decl, section), TC.reach_cyclic(K, edges))))
+                edges = edges_of(s2.model()); part.validate.append(('graph', (_source(real, K, edges, (), forms, decl, section, kinds), TC.reach_cyclic(K, edges))))
                 if len(part.samples) < 1: part.samples.append({'realisation': real, 'K': K, 'edges': edges, 'verdict': 'P0010' if got_rec else 'no P0010'})
     M.explore(entry, on_path)
     part.queries += M.stats['smt']; part.encoded = set(M.encoded); part.models = set(M.models_used)
@@ -117,9 +123,15 @@ def _alias_text(decl, i, base):
     if decl == 'subrange': return 'TYPE\n  al%d : %s(1..2);\nEND_TYPE\n' % (i, base)
     raise ValueError(decl)
 
-def _source(real, K, edges, upper=(), forms=None, decl=None, section='VAR'):
-    names = _names(real, K); E = set(edges); U = set(upper)
+def _source(real, K, edges, upper=(), forms=None, decl=None, section='VAR', kinds=None):
+    names = _names(real, K, kinds); E = set(edges); U = set(upper)
     nm = lambda i, j: (names[j].upper() if (i, j) in U else names[j])
+    if real == 'mixed':
+        out = ''
+        for i in range(K):
+            if kinds[i] == 'fb': out += 'FUNCTION_BLOCK fb%d\nVAR\n%sEND_VAR\nEND_FUNCTION_BLOCK\n' % (i, ''.join('  v%d_%d : %s;\n' % (i, j, nm(i, j) if (i, j) in E else 'INT') for j in range(K)))
+            else: out += 'TYPE\n  st%d : STRUCT\n%s  END_STRUCT;\nEND_TYPE\n' % (i, ''.join('    e%d_%d : %s;\n' % (i, j, nm(i, j) if (i, j) in E else 'INT') for j in range(K)))
+        return out
     if real == 'fb':
         return ''.join('FUNCTION_BLOCK fb%d\n%s\n%sEND_VAR\nEND_FUNCTION_BLOCK\n' % (i, section, ''.join('  v%d_%d : %s;\n' % (i, j, nm(i, j) if (i, j) in E else 'INT') for j in range(K))) for i in range(K))
     if real == 'struct':
@@ -161,6 +173,12 @@ def k1(ctx, kr):
     # references written in another letter case than the declaration (2 nodes, one case bit per reference)
     for real in ('fb', 'struct'):
         for bits in range(4): jobs.append((real, 2, {'case': True, (0, 0): bool(bits & 1), (0, 1): bool(bits & 2)}))
+    # containment that alternates between function blocks and structures: every digraph on 2 nodes with one node of each kind; on 3 nodes the kinds fb/struct/fb and struct/fb/struct
+    for kinds in (('fb', 'struct'), ('struct', 'fb')): jobs.append(('mixed', 2, {'kinds': kinds}))
+    cells3 = [(i, j) for i in range(3) for j in range(3)][:4]
+    for kinds in ((('fb', 'struct', 'fb'), ('struct', 'fb', 'struct')) if ctx.tier == 'quick' else [k for k in __import__('itertools').product(('fb', 'struct'), repeat=3) if len(set(k)) > 1]):
+        for bits in range(16):
+            fx = {c: bool(bits >> n & 1) for n, c in enumerate(cells3)}; fx['kinds'] = tuple(kinds); jobs.append(('mixed', 3, fx))
     if ctx.tier == 'thorough':
         K4 = 4
         for b0 in range(K4 + 1):
@@ -171,13 +189,13 @@ def k1(ctx, kr):
             fx = {c: bool(bits >> n & 1) for n, c in enumerate(cells)}; fx[(2, 2)] = False; fx[(3, 3)] = False
             jobs.append(('fb', K4, fx))
     kr.bounds = ('every directed graph on 3 nodes (self-loops included; one symbolic bit per potential edge, 512 graphs) realised as function-block instance graph and as structure-element graph; '
-                 'every functional graph (out-degree <= 1) on 3 nodes realised as type-alias graph, with every subset of the aliases declared with a default value, every digraph on 2 nodes as function-block graph with the instances in VAR_INPUT and in VAR_OUTPUT sections; every digraph on 2 nodes (fb and struct) with every reference optionally re-spelled in upper case' + ('; thorough: 4 nodes (16384 fb graphs without self-loops on two of the nodes, 625 alias graphs)' if ctx.tier == 'thorough' else ''))
+                 'every functional graph (out-degree <= 1) on 3 nodes realised as type-alias graph, with every subset of the aliases declared with a default value, every digraph on 2 and 3 nodes whose nodes are function blocks and structures in alternation (containment across both kinds), every digraph on 2 nodes as function-block graph with the instances in VAR_INPUT and in VAR_OUTPUT sections; every digraph on 2 nodes (fb and struct) with every reference optionally re-spelled in upper case' + ('; thorough: 4 nodes (16384 fb graphs without self-loops on two of the nodes, 625 alias graphs)' if ctx.tier == 'thorough' else ''))
     for part in par_map(_k1_job, jobs): merge_part(kr, part)
     P = ctx.program()
     kr.functions = fn_paths(P, getattr(kr, '_enc', set()))
     kr.exhaustive = True
     kr.assumptions = ['petgraph::algo::toposort by contract: Err(node on a cycle) iff the graph is cyclic', 'symbolic names range over the declared names plus INT; spelling is lower-case (case folding is C08-K4)',
                       'HashMap with symbolic keys modelled as association list with lookups forking on key equality (the key type\'s own PartialEq is interpreted)']
-    kr.outside = ['graphs with more nodes; mixed realisations in one unit; arrays/subranges/enumeration aliases']
+    kr.outside = ['graphs with more nodes; units mixing aliases with the other kinds; arrays/subranges/enumeration aliases']
 
 KERNELS = [k1]
